@@ -39,6 +39,7 @@ RULE = (
     "TemplateInheritanceError / other ResourceLimitError, and no RecursionError is raised anywhere. Non-trivial = source with >= 1 markup token, or a "
     "family with a real cycle; distinct by content."
     " Rounds 5-6 added enumerated families: tolerant-mode families with fan-out 1-3 (also inside 13 / 20 nested blocks); long cycles (5-24 partials) mixing include / render / render-for; expression-level opener x filler runs."
+    " Round 7 added: render-extends and include-in-block recursion with 1-3 calls per level in lax / warn mode."
 )
 REQUIRED = [
     ("liquid/parser.py", "Parser.parse_block"),
